@@ -10,6 +10,7 @@ import ShapeVerif.Model.Json
 import ShapeVerif.Model.Infer
 import ShapeVerif.Model.Display
 import ShapeVerif.Model.Serde
+import ShapeVerif.Model.Cost
 import ShapeVerif.Ref.Sem
 import ShapeVerif.Ref.Rfc8259
 import ShapeVerif.Ref.Witness
@@ -144,6 +145,18 @@ def step (line : String) : String :=
   | ["display", a] => withShape a fun a =>
       if asciiKeys a then hexOfString (display a) else "unmodelled"
   | ["echo", a] => withShape a fun a => sexp a
+  | ["ticks_subset", a, b] => withShape a fun a => withShape b fun b =>
+      let r := subsetT a b
+      showBool r.1 ++ " " ++ toString r.2
+  | ["ticks_merger", a, b] => withShape a fun a => withShape b fun b => toString (mergerT a b)
+  | ["ticks_infer", h] =>
+      match docOfHex h with
+      | none => "not-json"
+      | some d => toString (ticksInferDoc d)
+  | ["ticks_inferv", h] =>
+      match docOfHex h with
+      | none => "not-json"
+      | some d => toString (ticksSVal d.toSVal)
   | ["serde", a] => withShape a fun a => hexOfString (renderJson (serJ a))
   | ["serdert", a] => withShape a fun a =>
       match deserialize (serJ a) with
@@ -200,6 +213,7 @@ def step (line : String) : String :=
       | some d, some e => pC08 d e
       | _, _ => "not-json"
   | ["p_c17", _] => "n/a"
+  | ["allocs", _, _] => "n/a"
   | "p_c09" :: k :: hs =>
       match docsOfHex hs, k.toNat? with
       | some ds, some k => pC09 k ds
